@@ -153,6 +153,14 @@ pub fn sites(tier: Tier) -> Vec<Site> {
                 SLOTS[slot()].store(u64::MAX, AO::Relaxed);
             }));
     }
+    // every Unicode scalar value where a digit, a letter or nothing is expected: total, and what parses prints and re-parses
+    sites.push(Site::new("any-scalar-value", 0x11_0000 * 4,
+        "every Unicode scalar value c (all 1 112 064) in the texts 0.7c, c.7F, 0.7Fc, 0.c5F: no panic; parse, print, re-parse",
+        move |i, acc| {
+            let Some(c) = char::from_u32((i / 4) as u32) else { return };
+            let s = match i % 4 { 0 => format!("0.7{c}"), 1 => format!("{c}.7F"), 2 => format!("0.7F{c}"), _ => format!("0.{c}5F") };
+            let _ = check_string(&s, i, "any-scalar-value", acc);
+        }));
     // two lengths at once: the number of fraction zeros and the number of revision digits, in well-formed texts with and
     // without a leading zero (the printed form may be longer than the text: any limit on either meets the other here)
     {
